@@ -32,6 +32,10 @@ Init == InitK(Fresh([form |-> "none"]), Keys)
 Attached(stim) == IF stim.form = "set" THEN SetView(stim.details) ELSE stim.details
 Reset == ResetK(Fresh(E.stim)) /\ Count({"runs", E.stim.form} \cup (IF E.stim.form = "vec" /\ Cardinality({ E.stim.details[i].kind : i \in 1..Len(E.stim.details) }) < Len(E.stim.details) THEN {"with_repeated_kinds"} ELSE {})
                                          \cup (IF E.stim.form # "hostile" /\ E.stim.details = <<>> THEN {"empty_lists"} ELSE {}))
+\* a valid encoding cut short or followed by bytes that are no protobuf (the two classes built that way): if this specification's own
+\* parser cannot read it as a google.rpc.Status, the library reports an error or nothing - never the details that happened to come first
+Damaged(r) == IF s.stim.class \in {"truncated_details", "details_with_garbage_tail"} /\ ~Embedded(s.stim.bytes).ok
+              THEN << <<"C20.UndecodableIsAnErrorOrEmpty", ~r.ok \/ r.details = <<>> >> >> ELSE <<>>
 Built == /\ Live("built") /\ UNCHANGED stats
          /\ IF s.stim.form = "hostile" THEN JudgeK(<<>>, [s EXCEPT !.seen = @ \cup {"built"}])
             ELSE LET em == Embedded(E.details) want == Attached(s.stim) IN
@@ -42,10 +46,10 @@ Built == /\ Live("built") /\ UNCHANGED stats
 Travelled == /\ Live("travelled") /\ UNCHANGED stats
              /\ JudgeK(<< <<"C20.StatusSurvivesHeaders", E.code = s.stim.code /\ E.msg = s.stim.msg>> >>, [s EXCEPT !.seen = @ \cup {"travelled"}])
 ReadVec == /\ Live("read_vec")
-           /\ IF s.stim.form = "hostile" THEN JudgeK(<<>>, s) /\ Count(IF E.ok THEN {"hostile_decoded"} ELSE {"hostile_refused"})
+           /\ IF s.stim.form = "hostile" THEN JudgeK(Damaged(E), s) /\ Count(IF E.ok THEN {"hostile_decoded"} ELSE {"hostile_refused"})
               ELSE JudgeK(<< <<"C20.ListRecoveredUnchanged", E.ok /\ E.details = Attached(s.stim)>> >>, [s EXCEPT !.seen = @ \cup {"read_vec"}]) /\ UNCHANGED stats
 ReadSet == /\ Live("read_set") /\ UNCHANGED stats
-           /\ IF s.stim.form = "hostile" THEN JudgeK(<<>>, s)
+           /\ IF s.stim.form = "hostile" THEN JudgeK(Damaged(E), s)
               ELSE JudgeK(<< <<"C20.SetRecoveredUnchanged", E.ok /\ (s.stim.form = "set" => E.details = Attached(s.stim))>>,
                              <<"C20.SetOfAListHasItsKinds", E.ok => { E.details[i].kind : i \in 1..Len(E.details) } = { s.stim.details[i].kind : i \in 1..Len(s.stim.details) }>> >>,
                           [s EXCEPT !.seen = @ \cup {"read_set"}])
